@@ -1,6 +1,6 @@
 @unit cw4group
 @shim core.rs cw_utils.rs std_more.rs cw2.rs std_adapters.rs snapshot.rs cw_controllers.rs range.rs snapshot_range.rs
-@properties C09 C14 C20
+@properties C09 C14 C20 C06
 
 // ===================================================================== data and state
 @struct packages/cw4/src/query.rs Member
@@ -407,16 +407,16 @@ pub open spec fn step_msg(s: Raw, t: Raw, sender: Seq<char>, h: u64, msg: Execut
 @end
 
 @fn contracts/cw4-group/src/contract.rs query_total_weight
-@ensures C09.query_total_now
+@ensures C09.query_total_now C06
     r is Ok && height is None ==> r->Ok_0.weight == (match total_of(deps.storage.view()) { Some(w) => w, None => 0 })
-@ensures C09.query_total_at_height
+@ensures C09.query_total_at_height C06
     r is Ok && height is Some ==> r->Ok_0.weight == (match at_height::<u64>(deps.storage.view(), "total"@, "total__changelog"@, Seq::<u8>::empty(), height->Some_0) { Some(w) => w, None => 0 })
 @end
 
 @fn contracts/cw4-group/src/contract.rs query_member
-@ensures C09.query_member_now
+@ensures C09.query_member_now C06
     r is Ok && height is None ==> r->Ok_0.weight == member_of(deps.storage.view(), addr@)
-@ensures C09.query_member_at_height
+@ensures C09.query_member_at_height C06
     r is Ok && height is Some ==> r->Ok_0.weight == at_height::<u64>(deps.storage.view(), "members"@, "members__changelog"@, utf8(addr@), height->Some_0)
 @end
 
@@ -460,7 +460,7 @@ impl JsonT for TotalWeightResponse { uninterp spec fn json(self) -> Seq<u8>; uni
 impl JsonT for AdminResponse { uninterp spec fn json(self) -> Seq<u8>; uninterp spec fn unjson(b: Seq<u8>) -> Option<Self>; }
 impl JsonT for HooksResponse { uninterp spec fn json(self) -> Seq<u8>; uninterp spec fn unjson(b: Seq<u8>) -> Option<Self>; }
 @fn contracts/cw4-group/src/contract.rs query
-@ensures C09.query_routes_member_and_total C14 C20
+@ensures C09.query_routes_member_and_total C14 C20 C06
     r is Ok ==> match msg {
         QueryMsg::Member { addr, at_height } => exists|x: MemberResponse| r->Ok_0@ == x.json() && call_ensures(query_member, (deps, addr, at_height), Ok::<MemberResponse, StdError>(x)),
         QueryMsg::TotalWeight { at_height } => exists|x: TotalWeightResponse| r->Ok_0@ == x.json() && call_ensures(query_total_weight, (deps, at_height), Ok::<TotalWeightResponse, StdError>(x)),
